@@ -24,7 +24,8 @@ def theta_table(b):
             r = strip(r)
             if not (isinstance(r, tuple) and r[0] == 'agg' and r[1] == 'array'):
                 return None
-            rows.append([algebra.canon(x) for x in r[2:]])
+            # entries computed by a closure called with a constant branch index, or taken out of `array.map(..)`, are written out
+            rows.append([algebra.canon(util.peval(b.prog, x)) for x in r[2:]])
         return rows
     return None
 
